@@ -523,6 +523,65 @@ fn c10_regexes(tier: Tier) -> Vec<P> {
             v.push(P::Inter(a2(P::Comp(l.clone())), a2(P::Concat(a2(P::All), m.clone()))));
         }
     }
+    // a starred (or plussed) block first, then a literal or an alternative: a failed attempt that consumed whole blocks
+    // must not make the search skip the start positions inside those blocks
+    let short: Vec<Arc<P>> = words.iter().filter(|w| !w.is_empty() && w.len() <= 2).map(|w| a2(P::Str(w.clone()))).collect();
+    for l in &lit {
+        for m in &lit {
+            v.push(P::Concat(a2(P::Star(l.clone())), m.clone()));
+        }
+    }
+    for l in short.iter().filter(|l| matches!(&***l, P::Str(w) if w.len() == 2)) {
+        for (i, m1) in short.iter().enumerate() {
+            v.push(P::Concat(a2(P::Plus(l.clone())), m1.clone()));
+            for m2 in short.iter().skip(i + 1) {
+                v.push(P::Concat(a2(P::Star(l.clone())), a2(P::Union(m1.clone(), m2.clone()))));
+            }
+        }
+    }
+    // several spellings of one literal (str.to_re of the word, concatenation of its characters, of two halves, with
+    // runs written as powers): intersections of two spellings denote the word, of spellings of two different words
+    // nothing; unions and differences of them likewise
+    {
+        let ws: Vec<Vec<u32>> = crate::strs::all_strings(&[a, b], 4).into_iter().filter(|w| w.len() >= 2).collect();
+        let spell = |w: &Vec<u32>| -> Vec<Arc<P>> {
+            let mut out: Vec<Arc<P>> = vec![a2(P::Str(w.clone()))];
+            out.push(a2(P::ConcatL(w.iter().map(|&x| a2(P::Ch(x))).collect())));
+            for cut in 1..w.len() {
+                out.push(a2(P::Concat(a2(P::Str(w[..cut].to_vec())), a2(P::Str(w[cut..].to_vec())))));
+            }
+            // runs as powers
+            let mut runs: Vec<(u32, u32)> = vec![];
+            for &x in w {
+                match runs.last_mut() {
+                    Some(r) if r.0 == x => r.1 += 1,
+                    _ => runs.push((x, 1)),
+                }
+            }
+            if runs.iter().any(|r| r.1 > 1) {
+                out.push(a2(P::ConcatL(runs.iter().map(|&(x, k)| a2(P::Pow(a2(P::Ch(x)), k))).collect())));
+                out.push(a2(P::ConcatL(runs.iter().map(|&(x, k)| a2(P::Loop(a2(P::Ch(x)), k, k))).collect())));
+            }
+            out
+        };
+        for (wi, w) in ws.iter().enumerate() {
+            let sp = spell(w);
+            for i in 0..sp.len() {
+                for j in 0..sp.len() {
+                    if i != j {
+                        v.push(P::Inter(sp[i].clone(), sp[j].clone()));
+                    }
+                }
+                // a spelling of this word against a spelling of the next word of the same length (empty intersection)
+                let w2 = &ws[(wi + 1) % ws.len()];
+                if w2.len() == w.len() && w2 != w {
+                    let sp2 = spell(w2);
+                    v.push(P::Inter(sp[i].clone(), sp2[(i + 1) % sp2.len()].clone()));
+                    v.push(P::Diff(sp[i].clone(), sp2[(i + 1) % sp2.len()].clone()));
+                }
+            }
+        }
+    }
     // unions of complements whose bodies are in (detectable) inclusion, inside a frame
     for l in lit.iter().take(14) {
         for m in lit.iter().take(14) {
@@ -660,7 +719,7 @@ impl Engine for C10Engine {
     fn meta(&self, ctx: &Ctx) -> Meta {
         Meta {
             level: "model_checking",
-            rule: format!("{} regular expressions (level 1, all unary and a slice of binary level-2 programs, literal strings of length <= 4 under star/plus/opt/complement/union, x.*y patterns, open-ended middles; a second set over characters that differ by multiples of 256) built with the SMT-LIB wrappers x all {} subject strings over {{a,b,c}} (resp. {{0x41,0x42,0x142,0x242}}) x 3 replacement strings; expected results computed from the reference DFA by scanning (start, end) in lexicographic order: first match with possibly empty body for str_replace_re, repeated first non-empty match for str_replace_re_all; states = (regex, subject) pairs, transitions = replace calls; non-trivial = cases in which replace_re_all changes the subject", c10_regexes(ctx.tier).len() + c10_regexes_u4().len(), c10_subjects(ctx.tier).len()),
+            rule: format!("{} regular expressions (level 1, all unary and a slice of binary level-2 programs, literal strings of length <= 4 under star/plus/opt/complement/union, x.*y patterns, open-ended middles, starred blocks followed by literals/alternatives, intersections of different spellings of one literal; a second set over characters that differ by multiples of 256) built with the SMT-LIB wrappers x all {} subject strings over {{a,b,c}} (resp. {{0x41,0x42,0x142,0x242}}) x 3 replacement strings; expected results computed from the reference DFA by scanning (start, end) in lexicographic order: first match with possibly empty body for str_replace_re, repeated first non-empty match for str_replace_re_all; states = (regex, subject) pairs, transitions = replace calls; non-trivial = cases in which replace_re_all changes the subject", c10_regexes(ctx.tier).len() + c10_regexes_u4().len(), c10_subjects(ctx.tier).len()),
             assumptions: vec!["SMT-LIB 2.6 str.replace_re / str.replace_re_all: shortest leftmost match, empty match allowed only for replace_re".into()],
             exhaustive: true,
             space: "see rule".into(),
